@@ -247,18 +247,38 @@ Proof. unfold solve, solve_g. destruct (gj n _) as [rows|w'].
   - destruct (ker_okb n _ (vofl w')) eqn:E; [|discriminate]. intros H. injection H as <-.
     apply (kernel_cert_ext n _ _ _ (mfrz_spec n n (gram m A))). now apply ker_okb_spec. Qed.
 
-(* ------------------------------------------------------------------ the estimator as coded *)
-Definition flat_ok (m : nat) (ds : dataset F) (f : list F) : Prop :=
-  vstack_flatten (map snd ds) = Some f /\ length f = m.
+Lemma one_estimate_nth m n (M A : mat) b f i : (i < n)%nat ->
+  nth i (one_estimate m n M A b f) 0 = estimate m n M A (vofl b) (vofl f) i.
+Proof. intros Hi. unfold one_estimate. rewrite lvec_nth by exact Hi. now apply estimate_x_spec. Qed.
+Lemma one_estimate_length m n (M A : mat) b f : length (one_estimate m n M A b f) = n.
+Proof. apply lvec_length. Qed.
 
-Lemma est_loop_spec (one : list F -> list F) m : forall (sq : list (dataset F)) acc xs,
-  est_loop one m sq acc = E_ok xs <-> exists fs, Forall2 (flat_ok m) sq fs /\ xs = acc ++ map one fs.
+Lemma Forall_exists_Forall2 {X Y : Type} (R : X -> Y -> Prop) (l : list X) :
+  Forall (fun a => exists c, R a c) l -> exists l', Forall2 R l l'.
+Proof. induction 1 as [|a l [c Hc] _ [l' IH]]; [exists []; constructor|]. exists (c :: l'). now constructor. Qed.
+Lemma Forall2_Forall_exists {X Y : Type} (R : X -> Y -> Prop) (l : list X) l' :
+  Forall2 R l l' -> Forall (fun a => exists c, R a c) l.
+Proof. induction 1; constructor; [eexists; eassumption|assumption]. Qed.
+
+(* ------------------------------------------------------------------ the estimator as coded *)
+(* Everything about the loop is proved ONCE, for an arbitrary stacking function and an arbitrary guard, and then
+   instantiated with the repaired code (hstack, rank == n).  The pre-fix code (vstack_flatten, rank == min m n) is an
+   instance of the same generic statements; it is used only for the two refutations in C09_Witness.v. *)
+Section Coded.
+Variable stack : list (list F) -> option (list F).
+Variable guard : nat -> nat -> mat -> bool.
+
+Definition flat_ok_with (m : nat) (ds : dataset F) (f : list F) : Prop :=
+  stack (map snd ds) = Some f /\ length f = m.
+
+Lemma est_loop_spec_with (one : list F -> list F) m : forall (sq : list (dataset F)) acc xs,
+  est_loop_with stack one m sq acc = E_ok xs <-> exists fs, Forall2 (flat_ok_with m) sq fs /\ xs = acc ++ map one fs.
 Proof. induction sq as [|ds rest IH]; intros acc xs; simpl.
   - split.
     + intros H. injection H as <-. exists []. split; [constructor|]. cbn. now rewrite app_nil_r.
     + intros [fs [H ->]]. inversion H. cbn. now rewrite app_nil_r.
   - split.
-    + destruct (vstack_flatten (map snd ds)) as [f|] eqn:Ef; [|discriminate].
+    + destruct (stack (map snd ds)) as [f|] eqn:Ef; [|discriminate].
       destruct (Nat.eqb (length f) m) eqn:El; [|discriminate]. apply Nat.eqb_eq in El.
       intros H. apply IH in H. destruct H as [fs [H1 ->]]. exists (f :: fs). split.
       * constructor; [split; assumption|exact H1].
@@ -268,47 +288,115 @@ Proof. induction sq as [|ds rest IH]; intros acc xs; simpl.
       cbn. now rewrite <- app_assoc. Qed.
 
 (* sample counts are not used: datasets with the same distributions give the same result, error branches included *)
-Lemma est_loop_counts (one : list F -> list F) m : forall (sq sq' : list (dataset F)) acc,
-  map (map snd) sq = map (map snd) sq' -> est_loop one m sq acc = est_loop one m sq' acc.
+Lemma est_loop_counts_with (one : list F -> list F) m : forall (sq sq' : list (dataset F)) acc,
+  map (map snd) sq = map (map snd) sq' -> est_loop_with stack one m sq acc = est_loop_with stack one m sq' acc.
 Proof. induction sq as [|ds rest IH]; intros [|ds' rest'] acc H; try discriminate; [reflexivity|].
   cbn in H. injection H as H1 H2. simpl. rewrite H1.
-  destruct (vstack_flatten (map snd ds')) as [f|]; [|reflexivity].
+  destruct (stack (map snd ds')) as [f|]; [|reflexivity].
   destruct (Nat.eqb (length f) m); [|reflexivity]. now apply IH. Qed.
+
+Theorem counts_irrelevant_with m n (A : mat) b (sq sq' : list (dataset F)) :
+  map (map snd) sq = map (map snd) sq' ->
+  calc_estimate_sequence_with guard stack m n A b sq = calc_estimate_sequence_with guard stack m n A b sq'.
+Proof. intros H. unfold calc_estimate_sequence_with. destruct (negb (guard m n A)); [reflexivity|].
+  destruct (solve m n A); try reflexivity. now apply est_loop_counts_with. Qed.
+
+(* the value returned by the coded estimator is the certified estimate of each dataset *)
+Definition is_estimate_of_with (m n : nat) (M A : mat) (b : list F) (ds : dataset F) (x : list F) : Prop :=
+  exists f, flat_ok_with m ds f /\ x = one_estimate m n M A b f.
+
+Theorem coded_sound_with m n (A : mat) b sq xs :
+  calc_estimate_sequence_with guard stack m n A b sq = E_ok xs ->
+  exists M, left_inverse_cert n M (gram m A) /\ Forall2 (is_estimate_of_with m n M A b) sq xs.
+Proof. unfold calc_estimate_sequence_with. destruct (negb (guard m n A)); [discriminate|].
+  destruct (solve m n A) as [M|w|] eqn:Es; try discriminate.
+  intros H. apply est_loop_spec_with in H. destruct H as [fs [H ->]]. exists M. split; [now apply solve_inv_sound|].
+  cbn. clear Es. induction H as [|ds f sq fs Hf _ IH]; cbn; constructor; [|exact IH].
+  exists f. split; [exact Hf|reflexivity]. Qed.
+
+(* estimating a list = mapping the single estimate (no state is threaded through the loop) *)
+Theorem sequence_is_map_with m n (A : mat) b sq xs :
+  calc_estimate_sequence_with guard stack m n A b sq = E_ok xs ->
+  Forall2 (fun ds x => calc_estimate_sequence_with guard stack m n A b [ds] = E_ok [x]) sq xs.
+Proof. unfold calc_estimate_sequence_with. destruct (negb (guard m n A)); [discriminate|].
+  destruct (solve m n A) as [M|w|]; try discriminate.
+  intros H. apply est_loop_spec_with in H. destruct H as [fs [H ->]]. cbn [app].
+  induction H as [|ds f sq fs Hf _ IH]; cbn [map]; constructor; [|exact IH].
+  apply (proj2 (est_loop_spec_with _ m [ds] [] _)). exists [f]. split; [constructor; [exact Hf|constructor]|reflexivity]. Qed.
+
+Lemma est_loop_forall2_with (one : list F -> list F) m (sq : list (dataset F)) xs :
+  Forall2 (fun ds x => est_loop_with stack one m [ds] [] = E_ok [x]) sq xs -> est_loop_with stack one m sq [] = E_ok xs.
+Proof. intros H. apply est_loop_spec_with. induction H as [|ds x sq xs Hx _ IH].
+  - exists []. split; [constructor|reflexivity].
+  - destruct IH as [fs [H1 H2]]. apply est_loop_spec_with in Hx. destruct Hx as [fs1 [Hf E]].
+    inversion Hf as [|? f ? ? Hf1 Hf2]. subst. inversion Hf2. subst.
+    cbn in E. injection E as ->. exists (f :: fs). split; [constructor; assumption|reflexivity]. Qed.
+
+Theorem map_is_sequence_with m n (A : mat) b sq xs : sq <> [] ->
+  Forall2 (fun ds x => calc_estimate_sequence_with guard stack m n A b [ds] = E_ok [x]) sq xs ->
+  calc_estimate_sequence_with guard stack m n A b sq = E_ok xs.
+Proof. unfold calc_estimate_sequence_with. intros Hne H.
+  destruct sq as [|ds0 sq0]; [congruence|]. clear Hne.
+  destruct (negb (guard m n A)). { inversion H; discriminate. }
+  destruct (solve m n A) as [M|w|]; try (inversion H; discriminate).
+  now apply est_loop_forall2_with. Qed.
+
+(* the coded estimator returns values exactly when: the guard passes, the solve step certifies an inverse, and every
+   dataset stacks to m entries *)
+Theorem coded_returns_iff_with m n (A : mat) b (sq : list (dataset F)) :
+  (exists xs, calc_estimate_sequence_with guard stack m n A b sq = E_ok xs) <->
+  guard m n A = true /\ (exists M, solve m n A = S_inv M) /\ Forall (fun ds => exists f, flat_ok_with m ds f) sq.
+Proof. unfold calc_estimate_sequence_with. split.
+  - intros [xs H]. destruct (guard m n A); [|discriminate]. cbn [negb] in H.
+    destruct (solve m n A) as [M|w|]; try discriminate. split; [reflexivity|]. split; [now exists M|].
+    apply est_loop_spec_with in H. destruct H as [fs [H _]]. now apply Forall2_Forall_exists in H.
+  - intros [Hg [[M HM] Hf]]. rewrite Hg, HM. cbn [negb].
+    destruct (Forall_exists_Forall2 _ _ Hf) as [fs Hfs].
+    exists ([] ++ map (one_estimate m n M A b) fs). apply est_loop_spec_with. now exists fs. Qed.
+
+(* exact recovery through the coded estimator: dataset i holds the exact distributions of v  ->  result i is v *)
+Theorem coded_exact_recovery_with m n (A : mat) b sq xs v :
+  calc_estimate_sequence_with guard stack m n A b sq = E_ok xs ->
+  Forall2 (fun ds x => forall f, flat_ok_with m ds f -> veq m (vofl f) (predict n A (vofl b) v) ->
+                       length x = n /\ veq n (vofl x) v) sq xs.
+Proof. intros H. destruct (coded_sound_with _ _ _ _ _ _ H) as [M [HM HF]]. clear H.
+  induction HF as [|ds x sq xs [f [Hf ->]] _ IH]; constructor; [|exact IH].
+  intros f' Hf' Hv. destruct Hf as [Hf1 Hf2], Hf' as [Hf1' _]. rewrite Hf1 in Hf1'. injection Hf1' as <-.
+  split; [apply one_estimate_length|]. intros i Hi. unfold vofl at 1. rewrite one_estimate_nth by exact Hi.
+  now apply (exact_recovery m n M A HM). Qed.
+End Coded.
+
+(* ------------------------------------------------------------------ instances for the repaired code *)
+Definition flat_ok := flat_ok_with hstack.
+Definition is_estimate_of := is_estimate_of_with hstack.
+
+(* when exactly does np.hstack succeed: at least one block; the result is the concatenation, whatever the block lengths *)
+Lemma hstack_spec (blocks : list (list F)) f : hstack blocks = Some f <-> blocks <> [] /\ f = concat blocks.
+Proof. destruct blocks as [|b0 t]; unfold hstack.
+  - split; [discriminate|]. intros [H _]. congruence.
+  - split; [intros H; injection H as <-; split; [discriminate|reflexivity]|intros [_ ->]; reflexivity]. Qed.
+
+Lemma flat_ok_iff m (ds : dataset F) f :
+  flat_ok m ds f <-> ds <> [] /\ f = concat (map snd ds) /\ length (concat (map snd ds)) = m.
+Proof. unfold flat_ok, flat_ok_with. rewrite hstack_spec. split.
+  - intros [[H1 ->] H2]. split; [|split; [reflexivity|exact H2]]. intros E. apply H1. now rewrite E.
+  - intros [H1 [-> H2]]. split; [split; [|reflexivity]|exact H2]. intros E. apply H1.
+    destruct ds; [reflexivity|discriminate]. Qed.
 
 Theorem counts_irrelevant m n (A : mat) b (sq sq' : list (dataset F)) :
   map (map snd) sq = map (map snd) sq' ->
   calc_estimate_sequence m n A b sq = calc_estimate_sequence m n A b sq'.
-Proof. intros H. unfold calc_estimate_sequence. destruct (negb (coded_guard m n A)); [reflexivity|].
-  destruct (solve m n A); try reflexivity. now apply est_loop_counts. Qed.
-
-(* the value returned by the coded estimator is the certified estimate of each dataset *)
-Definition is_estimate_of (m n : nat) (M A : mat) (b : list F) (ds : dataset F) (x : list F) : Prop :=
-  exists f, flat_ok m ds f /\ x = one_estimate m n M A b f.
+Proof. exact (counts_irrelevant_with hstack coded_guard m n A b sq sq'). Qed.
 
 Theorem coded_sound m n (A : mat) b sq xs :
   calc_estimate_sequence m n A b sq = E_ok xs ->
   exists M, left_inverse_cert n M (gram m A) /\ Forall2 (is_estimate_of m n M A b) sq xs.
-Proof. unfold calc_estimate_sequence. destruct (negb (coded_guard m n A)); [discriminate|].
-  destruct (solve m n A) as [M|w|] eqn:Es; try discriminate.
-  intros H. apply est_loop_spec in H. destruct H as [fs [H ->]]. exists M. split; [now apply solve_inv_sound|].
-  cbn. clear Es. induction H as [|ds f sq fs Hf _ IH]; cbn; constructor; [|exact IH].
-  exists f. split; [exact Hf|reflexivity]. Qed.
+Proof. exact (coded_sound_with hstack coded_guard m n A b sq xs). Qed.
 
-Lemma one_estimate_nth m n (M A : mat) b f i : (i < n)%nat ->
-  nth i (one_estimate m n M A b f) 0 = estimate m n M A (vofl b) (vofl f) i.
-Proof. intros Hi. unfold one_estimate. rewrite lvec_nth by exact Hi. now apply estimate_x_spec. Qed.
-Lemma one_estimate_length m n (M A : mat) b f : length (one_estimate m n M A b f) = n.
-Proof. apply lvec_length. Qed.
-
-(* estimating a list = mapping the single estimate (no state is threaded through the loop) *)
 Theorem sequence_is_map m n (A : mat) b sq xs :
   calc_estimate_sequence m n A b sq = E_ok xs ->
   Forall2 (fun ds x => calc_estimate m n A b ds = E_ok [x]) sq xs.
-Proof. unfold calc_estimate, calc_estimate_sequence. destruct (negb (coded_guard m n A)); [discriminate|].
-  destruct (solve m n A) as [M|w|]; try discriminate.
-  intros H. apply est_loop_spec in H. destruct H as [fs [H ->]]. cbn [app].
-  induction H as [|ds f sq fs Hf _ IH]; cbn [map]; constructor; [|exact IH].
-  apply (proj2 (est_loop_spec _ m [ds] [] _)). exists [f]. split; [constructor; [exact Hf|constructor]|reflexivity]. Qed.
+Proof. exact (sequence_is_map_with hstack coded_guard m n A b sq xs). Qed.
 
 Theorem sequence_is_map_var m n (A : mat) b sq xs :
   calc_estimate_sequence m n A b sq = E_ok xs ->
@@ -316,27 +404,37 @@ Theorem sequence_is_map_var m n (A : mat) b sq xs :
 Proof. intros H. pose proof (sequence_is_map m n A b sq xs H) as H1. clear H.
   induction H1 as [|ds x sq xs Hx _ IH]; constructor; [split; [exact Hx|reflexivity]|exact IH]. Qed.
 
-Lemma est_loop_forall2 (one : list F -> list F) m (sq : list (dataset F)) xs :
-  Forall2 (fun ds x => est_loop one m [ds] [] = E_ok [x]) sq xs -> est_loop one m sq [] = E_ok xs.
-Proof. intros H. apply est_loop_spec. induction H as [|ds x sq xs Hx _ IH].
-  - exists []. split; [constructor|reflexivity].
-  - destruct IH as [fs [H1 H2]]. apply est_loop_spec in Hx. destruct Hx as [fs1 [Hf E]].
-    inversion Hf as [|? f ? ? Hf1 Hf2]. subst. inversion Hf2. subst.
-    cbn in E. injection E as ->. exists (f :: fs). split; [constructor; assumption|reflexivity]. Qed.
-
 Theorem map_is_sequence m n (A : mat) b sq xs : sq <> [] ->
   Forall2 (fun ds x => calc_estimate m n A b ds = E_ok [x]) sq xs ->
   calc_estimate_sequence m n A b sq = E_ok xs.
-Proof. unfold calc_estimate, calc_estimate_sequence. intros Hne H.
-  destruct sq as [|ds0 sq0]; [congruence|]. clear Hne.
-  destruct (negb (coded_guard m n A)). { inversion H; discriminate. }
-  destruct (solve m n A) as [M|w|]; try (inversion H; discriminate).
-  now apply est_loop_forall2. Qed.
+Proof. exact (map_is_sequence_with hstack coded_guard m n A b sq xs). Qed.
 
 Theorem estimated_var_single m n (A : mat) b ds x : calc_estimate m n A b ds = E_ok [x] -> estimated_var [x] = x.
 Proof. reflexivity. Qed.
 
-(* when exactly does np.vstack(...).flatten() succeed: at least one block, all blocks of one length *)
+Theorem coded_returns_iff m n (A : mat) b (sq : list (dataset F)) :
+  (exists xs, calc_estimate_sequence m n A b sq = E_ok xs) <->
+  coded_guard m n A = true /\ (exists M, solve m n A = S_inv M) /\ Forall (fun ds => exists f, flat_ok m ds f) sq.
+Proof. exact (coded_returns_iff_with hstack coded_guard m n A b sq). Qed.
+
+(* the repaired estimator accepts ANY block lengths (outcome counts): non-empty datasets with m entries in total *)
+Theorem coded_returns_any_block_lengths m n (A M : mat) b (sq : list (dataset F)) :
+  coded_guard m n A = true -> solve m n A = S_inv M ->
+  Forall (fun ds => ds <> [] /\ length (concat (map snd ds)) = m) sq ->
+  calc_estimate_sequence m n A b sq = E_ok (map (fun ds => one_estimate m n M A b (concat (map snd ds))) sq).
+Proof. intros Hg HM Hf. unfold calc_estimate_sequence, calc_estimate_sequence_with. rewrite Hg, HM. cbn [negb].
+  apply est_loop_spec_with. exists (map (fun ds => concat (map snd ds)) sq). split.
+  - induction Hf as [|ds sq [H1 H2] _ IH]; cbn [map]; constructor; [|exact IH].
+    apply flat_ok_iff. repeat split; assumption.
+  - cbn [app]. now rewrite map_map. Qed.
+
+Theorem coded_exact_recovery m n (A : mat) b sq xs v :
+  calc_estimate_sequence m n A b sq = E_ok xs ->
+  Forall2 (fun ds x => forall f, flat_ok m ds f -> veq m (vofl f) (predict n A (vofl b) v) ->
+                       length x = n /\ veq n (vofl x) v) sq xs.
+Proof. exact (coded_exact_recovery_with hstack coded_guard m n A b sq xs v). Qed.
+
+(* the pre-fix stacking: np.vstack(...).flatten() succeeds only for at least one block, all blocks of one length *)
 Lemma vstack_flatten_spec (blocks : list (list F)) f :
   vstack_flatten blocks = Some f <->
   blocks <> [] /\ (forall b, In b blocks -> length b = length (hd [] blocks)) /\ f = concat blocks.
@@ -351,37 +449,35 @@ Proof. destruct blocks as [|b0 t]; unfold vstack_flatten.
       assert (X : forallb (fun b => Nat.eqb (length b) (length b0)) (b0 :: t) = true).
       { apply forallb_forall. intros b Hb. apply Nat.eqb_eq. now apply H. }
       congruence. Qed.
+(* the repair only ADDS behaviour: wherever the old stacking was defined, the new one gives the same vector *)
+Lemma hstack_extends_vstack (blocks : list (list F)) f : vstack_flatten blocks = Some f -> hstack blocks = Some f.
+Proof. intros H. apply vstack_flatten_spec in H. destruct H as [H1 [_ ->]]. now apply hstack_spec. Qed.
 
-Lemma Forall_exists_Forall2 {X Y : Type} (R : X -> Y -> Prop) (l : list X) :
-  Forall (fun a => exists c, R a c) l -> exists l', Forall2 R l l'.
-Proof. induction 1 as [|a l [c Hc] _ [l' IH]]; [exists []; constructor|]. exists (c :: l'). now constructor. Qed.
-Lemma Forall2_Forall_exists {X Y : Type} (R : X -> Y -> Prop) (l : list X) l' :
-  Forall2 R l l' -> Forall (fun a => exists c, R a c) l.
-Proof. induction 1; constructor; [eexists; eassumption|assumption]. Qed.
+(* ------------------------------------------------------------------ the repaired guard rejects every wide matA *)
+Lemma pick_length c : forall (rows : list (row F)) p rest, pick F c rows = Some (p, rest) -> length rows = S (length rest).
+Proof. induction rows as [|r t IH]; intros p rest H; cbn in H; [discriminate|].
+  destruct (is0 F (rget F r c)).
+  - destruct (pick F c t) as [[p' rest']|] eqn:E; [|discriminate]. injection H as <- <-. cbn. f_equal. now apply (IH p' rest').
+  - injection H as <- <-. reflexivity. Qed.
 
-(* the coded estimator returns values exactly when: the guard passes, the solve step certifies an inverse, and every
-   dataset consists of equally long blocks with m entries in total *)
-Theorem coded_returns_iff m n (A : mat) b (sq : list (dataset F)) :
-  (exists xs, calc_estimate_sequence m n A b sq = E_ok xs) <->
-  coded_guard m n A = true /\ (exists M, solve m n A = S_inv M) /\ Forall (fun ds => exists f, flat_ok m ds f) sq.
-Proof. unfold calc_estimate_sequence. split.
-  - intros [xs H]. destruct (coded_guard m n A); [|discriminate]. cbn [negb] in H.
-    destruct (solve m n A) as [M|w|]; try discriminate. split; [reflexivity|]. split; [now exists M|].
-    apply est_loop_spec in H. destruct H as [fs [H _]]. now apply Forall2_Forall_exists in H.
-  - intros [Hg [[M HM] Hf]]. rewrite Hg, HM. cbn [negb].
-    destruct (Forall_exists_Forall2 _ _ Hf) as [fs Hfs].
-    exists ([] ++ map (one_estimate m n M A b) fs). apply est_loop_spec. now exists fs. Qed.
+Lemma rank_loop_le : forall fuel c (dn td : list (row F)) acc,
+  (rank_loop F fuel c (dn, td) acc <= acc + length td)%nat.
+Proof. induction fuel as [|k IH]; intros c dn td acc; cbn [rank_loop]; [lia|].
+  unfold gj_step. destruct (pick F c td) as [[p rest]|] eqn:E.
+  - apply pick_length in E. specialize (IH (S c) (map (elim_with F c (rscale F (kinv F (rget F p c)) p)) dn ++ [rscale F (kinv F (rget F p c)) p])
+                                            (map (elim_with F c (rscale F (kinv F (rget F p c)) p)) rest) (S acc)).
+    rewrite map_length in IH. lia.
+  - apply IH. Qed.
 
-(* exact recovery through the coded estimator: dataset i holds the exact distributions of v  ->  result i is v *)
-Theorem coded_exact_recovery m n (A : mat) b sq xs v :
-  calc_estimate_sequence m n A b sq = E_ok xs ->
-  Forall2 (fun ds x => forall f, flat_ok m ds f -> veq m (vofl f) (predict n A (vofl b) v) ->
-                       length x = n /\ veq n (vofl x) v) sq xs.
-Proof. intros H. destruct (coded_sound _ _ _ _ _ _ H) as [M [HM HF]]. clear H.
-  induction HF as [|ds x sq xs [f [Hf ->]] _ IH]; constructor; [|exact IH].
-  intros f' Hf' Hv. destruct Hf as [Hf1 Hf2], Hf' as [Hf1' _]. rewrite Hf1 in Hf1'. injection Hf1' as <-.
-  split; [apply one_estimate_length|]. intros i Hi. unfold vofl at 1. rewrite one_estimate_nth by exact Hi.
-  now apply (exact_recovery m n M A HM). Qed.
+Theorem rank_of_le_rows m n (A : mat) : (rank_of m n A <= m)%nat.
+Proof. unfold rank_of. pose proof (rank_loop_le n 0 [] (lrows m n A) 0) as H.
+  unfold lrows in H. rewrite map_length, seq_length in H. exact H. Qed.
+
+Theorem guard_rejects_wide m n (A : mat) : (m < n)%nat -> coded_guard m n A = false.
+Proof. intros H. unfold coded_guard. apply Nat.eqb_neq. pose proof (rank_of_le_rows m n A). lia. Qed.
+
+Theorem wide_raises_guard m n (A : mat) b sq : (m < n)%nat -> calc_estimate_sequence m n A b sq = E_guard.
+Proof. intros H. unfold calc_estimate_sequence, calc_estimate_sequence_with. now rewrite (guard_rejects_wide m n A H). Qed.
 
 (* end-to-end corollary with the object layer abstracted: any pair of maps with from_var (to_var o) = o *)
 Theorem exact_data_returns_object (Obj : Type) (from_var : vec -> Obj) (to_var : Obj -> vec)
